@@ -1192,7 +1192,10 @@ def aten_batch_norm_update_stats(
 
 
 @torch_op("aten::bernoulli", trace_only=True)
-def aten_bernoulli(self: TFloat) -> TFloat:
+def aten_bernoulli(
+    self: TFloat,
+    generator=None,  # pylint: disable=unused-argument
+) -> TFloat:
     """Proximal implementation of aten::bernoulli.default
 
     Note that due to the limitation of ONNX, we ignore the `generator` argument in
@@ -6900,6 +6903,7 @@ def aten_multinomial(
     self: TFloat,
     num_samples: int,
     replacement: bool = False,
+    generator=None,  # pylint: disable=unused-argument
 ) -> TInt:
     """multinomial(Tensor self, int num_samples, bool replacement=False, *, Generator? generator=None) -> Tensor"""
     # ONNX Multinomial doesn't support 1D input
@@ -7602,6 +7606,7 @@ def aten_normal(
     self: TTensor,
     mean: float = 0.0,
     std: float = 1.0,
+    generator=None,  # pylint: disable=unused-argument
 ) -> TFloat:  # type: ignore[type-var]
     """normal_functional(Tensor self, float mean=0, float std=1, *, Generator? generator=None) -> Tensor"""
 
@@ -7621,6 +7626,7 @@ def aten_normal_float_float(
     layout: str = "",
     device: str = "",
     pin_memory: bool = False,
+    generator=None,  # pylint: disable=unused-argument
 ) -> TensorType:
     """normal.float_float(float mean, float std, SymInt[] size, *, Generator? generator=None, ScalarType? dtype=None, Layout? layout=None, Device? device=None, bool? pin_memory=None) -> Tensor"""
 
@@ -7633,7 +7639,11 @@ def aten_normal_float_float(
 
 
 @torch_op("aten::normal.float_Tensor", trace_only=True)
-def aten_normal_float_tensor(mean: FLOAT, std: TFloat) -> TFloat:
+def aten_normal_float_tensor(
+    mean: FLOAT,
+    std: TFloat,
+    generator=None,  # pylint: disable=unused-argument
+) -> TFloat:
     """normal.float_Tensor(float mean, Tensor std, *, Generator? generator=None) -> Tensor"""
 
     mean_casted = op.CastLike(mean, std)
@@ -7643,7 +7653,11 @@ def aten_normal_float_tensor(mean: FLOAT, std: TFloat) -> TFloat:
 
 
 @torch_op("aten::normal.Tensor_float", trace_only=True)
-def aten_normal_tensor_float(mean: TFloat, std: FLOAT) -> TFloat:
+def aten_normal_tensor_float(
+    mean: TFloat,
+    std: FLOAT = 1.0,
+    generator=None,  # pylint: disable=unused-argument
+) -> TFloat:
     """normal.Tensor_float(Tensor mean, float std=1, *, Generator? generator=None) -> Tensor"""
 
     sampled = op.RandomNormalLike(mean, mean=0.0, scale=1.0)
@@ -7652,7 +7666,11 @@ def aten_normal_tensor_float(mean: TFloat, std: FLOAT) -> TFloat:
 
 
 @torch_op("aten::normal.Tensor_Tensor", trace_only=True)
-def aten_normal_tensor_tensor(mean: TFloat, std: TFloat) -> TFloat:
+def aten_normal_tensor_tensor(
+    mean: TFloat,
+    std: TFloat,
+    generator=None,  # pylint: disable=unused-argument
+) -> TFloat:
     """normal.Tensor_Tensor(Tensor mean, Tensor std, *, Generator? generator=None) -> Tensor"""
 
     sampled = op.RandomNormalLike(mean, mean=0.0, scale=1.0)
@@ -9856,19 +9874,43 @@ def aten_tanh(self: TFloat) -> TFloat:
 
 
 @torch_op("aten::tensor.bool", trace_only=True)
-def aten_tensor_bool(self: bool, dtype: int) -> TensorType:
+def aten_tensor_bool(
+    self: bool,
+    dtype: int = -1,
+    device: str = "",  # pylint: disable=unused-argument
+    requires_grad: bool = False,  # pylint: disable=unused-argument
+) -> TensorType:
+    """tensor.bool(bool t, *, ScalarType? dtype=None, Device? device=None, bool requires_grad=False) -> Tensor"""
+    if dtype == -1 or dtype is None:
+        dtype = BOOL.dtype
     tensor = op.Constant(value_int=self)
     return op.Cast(tensor, to=dtype)
 
 
 @torch_op("aten::tensor.float", trace_only=True)
-def aten_tensor_float(self: float, dtype: int) -> TensorType:
+def aten_tensor_float(
+    self: float,
+    dtype: int = -1,
+    device: str = "",  # pylint: disable=unused-argument
+    requires_grad: bool = False,  # pylint: disable=unused-argument
+) -> TensorType:
+    """tensor.float(float t, *, ScalarType? dtype=None, Device? device=None, bool requires_grad=False) -> Tensor"""
+    if dtype == -1 or dtype is None:
+        dtype = FLOAT.dtype
     tensor = op.Constant(value_float=self)
     return op.Cast(tensor, to=dtype)
 
 
 @torch_op("aten::tensor.int", trace_only=True)
-def aten_tensor_int(self: int, dtype: int) -> TensorType:
+def aten_tensor_int(
+    self: int,
+    dtype: int = -1,
+    device: str = "",  # pylint: disable=unused-argument
+    requires_grad: bool = False,  # pylint: disable=unused-argument
+) -> TensorType:
+    """tensor.int(int t, *, ScalarType? dtype=None, Device? device=None, bool requires_grad=False) -> Tensor"""
+    if dtype == -1 or dtype is None:
+        dtype = INT64.dtype
     tensor = op.Constant(value_int=self)
     return op.Cast(tensor, to=dtype)
 
